@@ -134,7 +134,7 @@ def acked_states(run_ops):
                 # '=' (empty but not nil) is the same key or value as '-' (nil) and reads back as '-'
                 live[o] = '%d|%s|%s|%s' % (o, t, '-' if k == '=' else k, '-' if v == '=' else v)
             nxt = int(r[1])
-        elif f[0] in ('del', 'delm') or f[0].startswith('trim') or f[0] in ('cupd', 'cdel'):
+        elif f[0] in ('del', 'delm') or f[0].startswith('trim') or f[0] in ('cupd', 'cdel', 'compact'):
             for mm in MSGRE.finditer(res[0] if res else ''):
                 live.pop(int(mm.group(1)), None)
         elif f[0] == 'tear' and live:
